@@ -6,7 +6,7 @@
    assumptions of these theorems (and only of these). *)
 From Coq Require Import List Bool Arith ZArith QArith Qcanon Reals.
 From AL Require Import Base.CaseLib C11.Lev C11.Model C11.Spec C11.SpecR
-  C11.ProofsStab C11.ProofsPoles C11.ProofsOrder2.
+  C11.ProofsStab C11.ProofsPoles C11.ProofsOrder2 C11.ProofsRoots.
 Import ListNotations.
 
 (* order 1, all coefficients a0 <> 0: True exactly when the pole is strictly
@@ -31,6 +31,18 @@ Theorem C11_jury_iff_poles : forall a0 a1 a2 : Qc, a0 <> 0%Qc ->
    <-> poles_inside [a0; a1; a2]).
 Proof. exact jury_iff_poles. Qed.
 Print Assumptions C11_jury_iff_poles.
+
+(* the boolean function Spec.jury, evaluated by the checker of family "coef" on
+   the implementation's answer, decides the pole location (orders 1 and 2) *)
+Theorem C11_jury_decides : forall (a0 a1 a2 : Qc) (b : bool), a0 <> 0%Qc ->
+  jury [a0; a1; a2] = Some b -> (b = true <-> poles_inside [a0; a1; a2]).
+Proof. exact jury_decides. Qed.
+Print Assumptions C11_jury_decides.
+
+Theorem C11_jury_decides_order1 : forall (a0 a1 : Qc) (b : bool), a0 <> 0%Qc ->
+  jury [a0; a1] = Some b -> (b = true <-> poles_inside [a0; a1]).
+Proof. exact jury_decides_order1. Qed.
+Print Assumptions C11_jury_decides_order1.
 
 (* ANY order, any denominator (leading / trailing zero coefficients and any
    non-zero leading coefficient included): if parcor_stable answers True then
@@ -62,6 +74,28 @@ Theorem C11_gain_invariance : forall (c : Qc) (den : list Qc), c <> 0%Qc ->
 Proof. exact gain_invariance. Qed.
 Print Assumptions C11_gain_invariance.
 
+(* root-to-pole link of the family "stab": the poles of the denominator built
+   from chosen roots and a gain g <> 0 are exactly the chosen roots (a real root,
+   or both members of a conjugate pair), with no factorisation assumed ... *)
+Theorem C11_from_roots_poles : forall (g : Qc) (rs : list (Qc * Qc)) (z : C), g <> 0%Qc ->
+  (is_pole (from_roots g rs) z <-> exists xy, In xy rs /\ root_match z xy).
+Proof. exact from_roots_poles. Qed.
+Print Assumptions C11_from_roots_poles.
+
+(* ... so the boolean the checker compares parcor_stable with decides
+   "every pole strictly inside the unit circle" *)
+Theorem C11_from_roots_poles_inside : forall (g : Qc) (rs : list (Qc * Qc)), g <> 0%Qc ->
+  (forallb inside rs = true <-> poles_inside (from_roots g rs)).
+Proof. exact from_roots_poles_inside. Qed.
+Print Assumptions C11_from_roots_poles_inside.
+
+(* on the denominators of the family, any degree and multiplicity: a True
+   answer implies that all chosen roots are strictly inside *)
+Theorem C11_stable_roots_inside : forall (g : Qc) (rs : list (Qc * Qc)), g <> 0%Qc ->
+  parcor_stable (from_roots g rs) = Ok true -> forallb inside rs = true.
+Proof. exact stable_roots_inside. Qed.
+Print Assumptions C11_stable_roots_inside.
+
 (* ---------------------------------------------------------------- non-vacuity *)
 Definition C11_ok (r : result bool) (b : bool) : bool :=
   match r with Ok x => Bool.eqb x b | Err _ => false end.
@@ -91,3 +125,17 @@ Proof.
   - apply stable_iff_order2; [discriminate|]. vm_compute. reflexivity.
 Qed.
 Print Assumptions C11_example_poles_inside.
+
+(* a denominator built from the pair (1 +- i)/2, the double real root -1/3 and
+   the gain 2: 2 (1 - z^-1 + z^-2/2)(1 + z^-1/3)^2; and one with the double
+   root 1 on the unit circle *)
+Example C11_example_from_roots :
+  list_eqb Qc_eqb (from_roots (qc 2 1) [(qc 1 2, qc 1 2); (qc (-1) 3, 0%Qc); (qc (-1) 3, 0%Qc)])
+                  [qc 2 1; qc (-2) 3; qc (-1) 9; qc 4 9; qc 1 9]
+  && forallb inside [(qc 1 2, qc 1 2); (qc (-1) 3, 0%Qc); (qc (-1) 3, 0%Qc)]
+  && C11_ok (parcor_stable (from_roots (qc 2 1) [(qc 1 2, qc 1 2); (qc (-1) 3, 0%Qc); (qc (-1) 3, 0%Qc)])) true
+  && negb (forallb inside [(qc 1 1, 0%Qc); (qc 1 1, 0%Qc)])
+  && C11_ok (parcor_stable (from_roots (qc 1 1) [(qc 1 1, 0%Qc); (qc 1 1, 0%Qc)])) false
+  = true.
+Proof. vm_compute. reflexivity. Qed.
+Print Assumptions C11_example_from_roots.
